@@ -213,6 +213,16 @@ contract('gnpy.topology.spectrum_assignment.determine_slot_numbers', props=['C14
                   ('window_inside_guard_bands', 'implies(result > 0, OKWIN(bm, c, result))')],
          returns=integer(), pure=True, modifies=[], hints=['requested_n - test_oms.spectrum_bitmap.n_min'])
 
+# a centre the user fixed outside the slot range of the path: nothing is available there (the request is then blocked), no exception
+contract('gnpy.topology.spectrum_assignment.determine_slot_numbers',
+         name='gnpy.topology.spectrum_assignment.determine_slot_numbers[centre outside the map]', props=['C14'],
+         params={'test_oms': OMS_A, 'requested_n': integer(), 'required_m': integer(), 'per_channel_m': integer()}, spec=SPEC_SEL,
+         let={'bm': 'test_oms.spectrum_bitmap'},
+         requires=[('wf', 'WF(bm)'), ('indices', 'WFI(bm)'), ('pcm', 'per_channel_m > 0'),
+                   ('n_off_the_map', 'requested_n < bm.n_min or requested_n > bm.n_max')],
+         ensures=[('nothing_available', 'result == 0')],
+         returns=integer(), pure=True, modifies=[], use_at_calls=False)
+
 SPEC_SEL2 = SPEC_SEL + '''
 def ROOM(bm, s, m):
     # a window of 2m slots starting at local index s lies inside the list and inside the guard-band indices
